@@ -160,3 +160,48 @@ Definition check_filter (c : flt_case) : list string :=
    else []) ++
   (* model vs implementation *)
   tag_if (negb (Bool.eqb (filter_one m (f_ver c) (f_provs c)) (f_obs c))) "mismatch:filter-packages".
+
+(* ---- shared-library names: provide and constraint go through the same splitter ----
+   so:NAME=V is put on the scale 0.V unless V ends in a release suffix -rN (melange#1871).  Whatever that scale is, a provide and
+   a constraint of the SAME kind (both with a release suffix, or both without) must compare as their versions do: the rescaling
+   prefixes the same component to both or to neither.  Mixed kinds are implementation-defined and not judged.
+   observed: 0 = false, 1 = true, 2 = error, 3 = the provided version did not parse *)
+Record so_case := { so_name : string; so_op : string; so_cver : string; so_pver : string; so_obs : Z }.
+
+Fixpoint all_digits (l : list N) : bool :=
+  match l with [] => true | c :: t => is_digit c && all_digits t end.
+(* does the byte string end in "-r" followed by at least one digit? *)
+Fixpoint ends_with_release_b (l : list N) : bool :=
+  match l with
+  | [] => false
+  | c :: t => (match t with
+               | c2 :: d :: t2 => (c =? 45)%N && (c2 =? 114)%N && all_digits (d :: t2)
+               | _ => false
+               end) || ends_with_release_b t
+  end.
+Definition ends_with_release (s : string) : bool := ends_with_release_b (bytes_of_string s).
+
+Definition check_so (c : so_case) : list string :=
+  let cons := resolve_constraint (String.append (so_name c) (String.append (so_op c) (so_cver c))) in
+  let prov := resolve_constraint (String.append (so_name c) (String.append "=" (so_pver c))) in
+  (* validator *)
+  (if Bool.eqb (ends_with_release (so_cver c)) (ends_with_release (so_pver c)) then
+     match spec_parse (so_pver c), spec_parse (so_cver c) with
+     | Some a, Some r =>
+         if fits_int64 a && fits_int64 r then
+           tag_if (negb (so_obs c =? (if spec_sat (vop_of_string (so_op c)) a r then 1 else 0)))
+             (* finding C03-F2: the rescaling looks for the first "=" (strings.Cut), so a constraint with > < or ~ keeps its
+                scale while the provide it is compared with is moved to 0.V *)
+             (if negb (existsb (fun ch => (ch =? 61)%N) (bytes_of_string (so_op c))) && negb (ends_with_release (so_cver c))
+              then "viol:soname-rescaling-skips-operator-without-equals"
+              else "viol:soname-constraint-disagrees-with-apk-order")
+         else []
+     | _, _ => []
+     end
+   else []) ++
+  (* model vs implementation *)
+  (let want := match parse_version (c_version prov) with
+               | None => 3
+               | Some v => match satisfied_by cons v with Some true => 1 | Some false => 0 | None => 2 end
+               end in
+   tag_if (negb (want =? so_obs c)) "mismatch:soname-satisfied-by").
